@@ -1,7 +1,7 @@
 SPECIFICATION Spec
 CONSTANTS
-  MaxLen = 4
-  MaxLenCheap = 4
+  MaxLen = 5
+  MaxLenCheap = 6
   InitAll = FALSE
   BugNextArgNoSkip = FALSE
   BugUseFlagAll = FALSE
